@@ -156,6 +156,15 @@ pub fn gen(stream: &str, tier: &str, seed: u64, out: &mut dyn Write) -> bool {
                     if k > 1 && r.chance(1, 2) { crate::shared::msgverbs::align_oneofs(&mut r, s, &a, &mut b, 1); }
                     cx.cat(e, &a, &b);
                     cx.mrg(e, &a, &bytes_of(e, &b));
+                    // the second encoding as another conforming encoder may write it: repeated scalars packed, unpacked or split
+                    // into runs, fields interleaved, defaults present or omitted - merged into a value that is not empty
+                    if k % 2 == 0 {
+                        use crate::shared::refcodec::{ref_encode, Choices};
+                        let alt = ref_encode(s, &b, &mut Choices { r: &mut r, canonical: false });
+                        cx.mrg(e, &a, &alt);
+                        let alt_a = ref_encode(s, &a, &mut Choices { r: &mut r, canonical: false });
+                        cx.dec(e, &[alt_a, alt].concat());
+                    }
                 }
             }
         }
@@ -184,6 +193,25 @@ pub fn gen(stream: &str, tier: &str, seed: u64, out: &mut dyn Write) -> bool {
                         put_varint(*l, &mut b);
                         b.extend_from_slice(&[0, 0, 0, 0, 0, 0, 0, 0]);
                         cx.dec(e, &b);
+                    }
+                }
+            }
+            // every declared field as a SHORT length-delimited record (a packed run whose length is not a multiple of the element
+            // width, a string, a nested message of a few bytes), the input ending with the record or inside it
+            for e in &tb.entries {
+                let s = tb.schema_of(e);
+                let tags: Vec<u32> = s.msgs[e.idx].iter().flat_map(|d| d.tags()).collect();
+                for (i, tag) in tags.iter().enumerate() {
+                    for (j, l) in [1u64, 2, 3, 5, 6, 7, 9, 10, 12].iter().enumerate() {
+                        if !thorough && (i + j) % 3 != 0 { continue; }
+                        for missing in [0u64, 1, 3] {
+                            if missing > *l { continue; }
+                            let mut b = vec![];
+                            put_key(*tag, 2, &mut b);
+                            put_varint(*l, &mut b);
+                            b.extend((0..(*l - missing)).map(|_| r.next() as u8));
+                            cx.dec(e, &b);
+                        }
                     }
                 }
             }
